@@ -823,11 +823,17 @@ func Transform(source interface{}, target interface{}) error {
 // nameServices create implicit `name` key for convenience accessing service
 func nameServices(from reflect.Value, to reflect.Value) (interface{}, error) {
 	if to.Type() == reflect.TypeOf(types.Services{}) {
+		if from.Kind() != reflect.Map {
+			return nil, errors.New("services must be a mapping")
+		}
 		nameK := reflect.ValueOf("name")
 		iter := from.MapRange()
 		for iter.Next() {
 			name := iter.Key()
 			elem := iter.Value()
+			if elem.Kind() != reflect.Interface || elem.Elem().Kind() != reflect.Map {
+				return nil, fmt.Errorf("services.%s must be a mapping", name)
+			}
 			elem.Elem().SetMapIndex(nameK, name)
 		}
 	}
